@@ -526,6 +526,12 @@ pub fn c05(rng: &mut Rng, thorough: bool, idx: u64) -> Spec {
     let outage: &str = if idx % 4 == 3 { *rng.pick(&["replicas_down", "primary_down"]) } else { "none" };
     let mut plan = serde_json::Map::new();
     let mut clients = Vec::new();
+    // every fifth run: the statement cache is on and statements are also prepared under a name
+    let stmt_cache = idx % 5 == 1;
+    if stmt_cache {
+        cfg.pools[0].cache_size = 8;
+    }
+    let mut named = 0u32;
     for id in 1..=nclients {
         let mut p = Prog::new(id);
         let n = rng.range(5, if thorough { 26 } else { 14 });
@@ -556,6 +562,44 @@ pub fn c05(rng: &mut Rng, thorough: bool, idx: u64) -> Spec {
                 let (class, sql) = classed_statement(rng, &t);
                 plan.insert(t.clone(), serde_json::json!({"class": class}));
                 p.simple(sql);
+            } else if stmt_cache && r < 90 {
+                // a named statement prepared now (the pooler answers the Parse from its cache, no
+                // server is involved yet) and executed by a later Bind, after another statement
+                // that may pull the role the other way; no SET in between
+                let t = p.tag();
+                let (mut class, mut sql) = classed_statement(rng, &t);
+                while class.starts_with("multi") {
+                    let x = classed_statement(rng, &t);
+                    class = x.0;
+                    sql = x.1;
+                }
+                named += 1;
+                let name = format!("n{}", named);
+                plan.insert(t.clone(), serde_json::json!({"class": class, "extended": true, "named_later_bind": true}));
+                p.send(vec![FrontMsg::P { name: name.clone(), sql, types: vec![] }, FrontMsg::S]);
+                if rng.chance(0.7) {
+                    p.new_txn();
+                    let t0 = p.tag();
+                    let (mut c0, mut s0) = classed_statement(rng, &t0);
+                    while c0.starts_with("multi") {
+                        let x = classed_statement(rng, &t0);
+                        c0 = x.0;
+                        s0 = x.1;
+                    }
+                    plan.insert(t0.clone(), serde_json::json!({"class": c0, "extended": true}));
+                    p.send(vec![
+                        FrontMsg::P { name: String::new(), sql: s0, types: vec![] },
+                        FrontMsg::B { portal: String::new(), stmt: String::new(), fmt: vec![], params: vec![], rfmt: vec![], binary_hex: false },
+                        FrontMsg::E { portal: String::new(), max: 0 },
+                        FrontMsg::S,
+                    ]);
+                }
+                p.new_txn();
+                p.send(vec![
+                    FrontMsg::B { portal: String::new(), stmt: name, fmt: vec![], params: vec![], rfmt: vec![], binary_hex: false },
+                    FrontMsg::E { portal: String::new(), max: 0 },
+                    FrontMsg::S,
+                ]);
             } else {
                 // extended protocol, anonymous statement (single statement classes only)
                 let t = p.tag();
